@@ -271,6 +271,13 @@ func main() {
 	var saveEff, removeEff, addGuards, writers, saveCallers, removeCallers []string
 	var saveMem, removeMem []string
 	var addLock, ancestorLock, saveLock, removeLock []string
+	pkgVars := map[string]bool{}
+	var fields, flagReads []string
+	type fnBody struct {
+		name string
+		fd   *ast.FuncDecl
+	}
+	var chainFns []fnBody
 	consts := map[string]string{}
 	wantConst := map[string]bool{"groupChainPrefix": true, "groupForkDBPrefix": true, "lastGroupKey": true,
 		"groupCountKey": true, "latestGroupHeightKey": true, "groupCommonAncestorHeightKey": true}
@@ -286,6 +293,25 @@ func main() {
 			os.Exit(1)
 		}
 		for _, d := range af.Decls {
+			if gd, ok := d.(*ast.GenDecl); ok && gd.Tok == token.VAR {
+				for _, sp := range gd.Specs {
+					for _, nm := range sp.(*ast.ValueSpec).Names {
+						pkgVars[nm.Name] = true
+					}
+				}
+			}
+			if gd, ok := d.(*ast.GenDecl); ok && gd.Tok == token.TYPE {
+				for _, sp := range gd.Specs {
+					ts := sp.(*ast.TypeSpec)
+					if st, ok := ts.Type.(*ast.StructType); ok && ts.Name.Name == "groupChain" {
+						for _, f := range st.Fields.List {
+							for _, nm := range f.Names {
+								fields = append(fields, nm.Name+" "+src(f.Type))
+							}
+						}
+					}
+				}
+			}
 			if gd, ok := d.(*ast.GenDecl); ok && gd.Tok == token.CONST {
 				for _, sp := range gd.Specs {
 					vs := sp.(*ast.ValueSpec)
@@ -303,6 +329,9 @@ func main() {
 				continue
 			}
 			name := fd.Name.Name
+			if base == "groupchain.go" || base == "groupchain_sync.go" {
+				chainFns = append(chainFns, fnBody{name, fd})
+			}
 			isGC := recvName(fd) != ""
 			scoped := isGC || name == "initGroupChain" // start-up builds the chain in a local named chain
 			if isGC && name == "save" {
@@ -379,6 +408,52 @@ func main() {
 			os.Exit(1)
 		}
 	}
+	// package-level state written, and configuration / fork flags read, by the code of groupchain*.go
+	var pkgWrites []string
+	for _, fb := range chainFns {
+		ast.Inspect(fb.fd.Body, func(n ast.Node) bool {
+			switch x := n.(type) {
+			case *ast.AssignStmt:
+				if x.Tok == token.DEFINE {
+					return true
+				}
+				for _, l := range x.Lhs {
+					root := l
+					for {
+						switch y := root.(type) {
+						case *ast.SelectorExpr:
+							root = y.X
+							continue
+						case *ast.IndexExpr:
+							root = y.X
+							continue
+						case *ast.StarExpr:
+							root = y.X
+							continue
+						}
+						break
+					}
+					if id, ok := root.(*ast.Ident); ok && pkgVars[id.Name] {
+						if id.Obj != nil {
+							if _, top := id.Obj.Decl.(*ast.ValueSpec); !top {
+								continue // a local or parameter of the same name
+							}
+						}
+						pkgWrites = append(pkgWrites, fb.name+": "+src(l))
+					}
+				}
+			case *ast.CallExpr:
+				f := src(x.Fun)
+				if strings.HasPrefix(f, "common.IsProposal") || f == "common.IsSub" || f == "common.IsMainnet" || f == "common.IsDEV" ||
+					f == "common.IsRobin" || f == "common.GetBlockHeight" || strings.HasPrefix(f, "common.LocalChainConfig") {
+					flagReads = append(flagReads, fb.name+": "+f)
+				}
+			}
+			return true
+		})
+	}
+	sort.Strings(pkgWrites)
+	sort.Strings(flagReads)
 	var b strings.Builder
 	b.WriteString("/- GENERATED by gen/cmd/c19facts from src/core/*.go — do not edit. -/\n")
 	b.WriteString("namespace Rangers.Generated.GroupChainFacts\n\n")
@@ -404,6 +479,12 @@ func main() {
 	b.WriteString(leanList("removeLockOps", removeLock))
 	b.WriteString("\n" + leanList("saveCallers", saveCallers))
 	b.WriteString("\n" + leanList("removeCallers", removeCallers))
+	b.WriteString("\n/-- Fields of `type groupChain struct` — all the state a chain object has. -/\n")
+	b.WriteString(leanList("groupChainFields", fields))
+	b.WriteString("\n/-- Package-level variables assigned by the functions of groupchain.go / groupchain_sync.go. -/\n")
+	b.WriteString(leanList("packageStateWrites", pkgWrites))
+	b.WriteString("\n/-- Network / fork-schedule flags read by those functions. -/\n")
+	b.WriteString(leanList("forkFlagReads", flagReads))
 	b.WriteString("\n/-- Store prefixes and bookkeeping keys of the group chain and of the group fork database. -/\n")
 	for _, k := range []string{"groupChainPrefix", "groupForkDBPrefix", "lastGroupKey", "groupCountKey", "latestGroupHeightKey", "groupCommonAncestorHeightKey"} {
 		v, ok := consts[k]
